@@ -54,6 +54,26 @@ def run(tier):
                 v.add([dict(key="C01:" + why, line=i, trace=path, format=ev["fmt"], output=core.cp_text(ev["text"]),
                             prefix=core.cp_text(ev["prefix"]), origin=ev["origin"], check=ev["check"], preset=ev["preset"],
                             rerendered=core.cp_text(ev["rerender"]["s"]))])
+    # the git source: default outputs of version / flow after every operation of random git sessions
+    from .c02 import TRACE_CFG as GIT_TRACE_CFG
+    sessions = 100 if tier == "quick" else 1500
+    gitlines = 0
+    for k in range(0, sessions, 100):
+        path = os.path.join(core.BUILD, "c01-git-%d.ndjson" % k)
+        core.zv(["record", "gitrepo", core.seed() * 1000 + 700 + k // 100, 100, path], timeout=14400)
+        saved = core.TRACE_CFG
+        core.TRACE_CFG = GIT_TRACE_CFG
+        try:
+            events, bad, tr = core.trace_validate("Trace_GitRepo", path, "c01-git", marker=True)
+        finally:
+            core.TRACE_CFG = saved
+        gitlines += sum(1 for e in events if e["k"] == "gitout")
+        for i, ev in bad:
+            if ev.get("_reason") == "git-output-not-wellformed":
+                tbad += 1
+                v.add([dict(key="C01:git-output-not-wellformed", line=i, trace=path, command=ev["cmd"], format=ev["fmt"], output=core.cp_text(ev["text"]))])
+    tev += gitlines
+    core.log("  %d output lines from the git source (version / flow after every operation of %d sessions)" % (gitlines, sessions))
     distinct = tev
     core.log("  judged %d output lines with Trace_Output, %d rejected" % (tev, tbad))
     cov = dict(states=states, transitions=trans, traces_validated_against_impl=tev, samples=samples[:6],
